@@ -10,6 +10,75 @@
 From Verif Require Import Base.Prelude Gen.ParseLitGen Model.Escape Model.ParseLit Model.GroupMap Model.CharClass
   Model.Parser Proofs.ParseLitProofs Proofs.ParserScan Proofs.ParserTree Proofs.ParserMain Proofs.ParserPre.
 
+(* ---------------------------------------------------------------- direction bits *)
+Lemma land_lor_disjoint o b k : Z.land b k = 0 -> Z.land (Z.lor o b) k = Z.land o k.
+Proof. intros H. rewrite Z.land_lor_distr_l, H. apply Z.lor_0_r. Qed.
+
+Lemma land_ldiff_disjoint o b k : Z.land b k = 0 -> Z.land (Z.ldiff o b) k = Z.land o k.
+Proof.
+  intros H. apply Z.bits_inj'. intros n Hn. rewrite !Z.land_spec, Z.ldiff_spec.
+  assert (T : Z.testbit b n && Z.testbit k n = false) by (rewrite <- Z.land_spec, H; apply Z.bits_0).
+  destruct (Z.testbit o n), (Z.testbit b n), (Z.testbit k n); cbn in *; congruence.
+Qed.
+
+(* the option letters scanOptions accepts never touch RightToLeft, ECMAScript or RE2 *)
+Lemma inline_bit_disjoint ch k :
+  (k = opt_r \/ k = opt_e \/ k = opt_re2) ->
+  (option_from_code ch =? 0) || is_only_top_option (option_from_code ch) = false ->
+  Z.land (option_from_code ch) k = 0.
+Proof.
+  intros Hk. unfold option_from_code, is_only_top_option, opt_i, opt_r, opt_m, opt_n, opt_s, opt_x, opt_e, opt_u, opt_re2 in *.
+  repeat match goal with |- context [if ?b then _ else _] => destruct b end; cbn; intros H; try discriminate;
+    destruct Hk as [-> | [-> | ->]]; reflexivity.
+Qed.
+
+Lemma scan_options_keeps o cs k :
+  Forall (fun c => match c with OBit b => Z.land b k = 0 | _ => True end) cs ->
+  forall off, Z.land (scan_options off cs o) k = Z.land o k.
+Proof.
+  intros H. revert o. induction H as [|c cs Hc Hcs IH]; intros o off; cbn [scan_options]; [reflexivity|].
+  destruct c as [| |b]; try apply IH.
+  rewrite IH. destruct off; [apply land_ldiff_disjoint | apply land_lor_disjoint]; exact Hc.
+Qed.
+
+Lemma ochars_of_disjoint k : (k = opt_r \/ k = opt_e \/ k = opt_re2) -> forall p,
+  Forall (fun c => match c with OBit b => Z.land b k = 0 | _ => True end) (fst (ochars_of p)).
+Proof.
+  intros Hk. induction p as [|ch p IH]; cbn [ochars_of fst]; [constructor|].
+  destruct (ch =? 45); [destruct (ochars_of p); cbn [fst] in *; constructor; [exact I | exact IH]|].
+  destruct (ch =? 43); [destruct (ochars_of p); cbn [fst] in *; constructor; [exact I | exact IH]|].
+  destruct ((option_from_code ch =? 0) || is_only_top_option (option_from_code ch)) eqn:E; [constructor|].
+  destruct (ochars_of p); cbn [fst] in *. constructor; [apply inline_bit_disjoint; assumption | exact IH].
+Qed.
+
+Theorem inline_options_keep_top_bits o p o' q :
+  scan_options_text o p = (o', q) ->
+  useRTL o' = useRTL o /\ useE o' = useE o /\ useRE2 o' = useRE2 o.
+Proof.
+  unfold scan_options_text. pose proof (fun k Hk => ochars_of_disjoint k Hk p) as D.
+  destruct (ochars_of p) as [cs r]. cbn [fst] in D. intros H. inversion H; subst.
+  unfold useRTL, useE, useRE2, pl_bit, ParseLitGen.PL_RightToLeft, ParseLitGen.PL_ECMAScript, ParseLitGen.PL_RE2.
+  rewrite (scan_options_keeps o cs 64 (D opt_r ltac:(auto)) false).
+  rewrite (scan_options_keeps o cs 256 (D opt_e ltac:(auto)) false).
+  rewrite (scan_options_keeps o cs 512 (D opt_re2 ltac:(auto)) false). auto.
+Qed.
+
+Lemma useRTL_set o : useRTL (set_rtl o) = true.
+Proof.
+  unfold useRTL, pl_bit, set_rtl. rewrite Z.land_lor_distr_l.
+  destruct (Z.lor (Z.land o ParseLitGen.PL_RightToLeft) (Z.land ParseLitGen.PL_RightToLeft ParseLitGen.PL_RightToLeft) =? 0) eqn:E; [|reflexivity].
+  apply Z.eqb_eq in E. apply Z.lor_eq_0_iff in E. destruct E as [_ E]. vm_compute in E. discriminate.
+Qed.
+
+Lemma useRTL_clear o : useRTL (clear_rtl o) = false.
+Proof.
+  unfold useRTL, pl_bit, clear_rtl.
+  assert (H : Z.land (Z.ldiff o ParseLitGen.PL_RightToLeft) ParseLitGen.PL_RightToLeft = 0).
+  { apply Z.bits_inj'. intros n Hn. rewrite Z.land_spec, Z.ldiff_spec, Z.bits_0.
+    destruct (Z.testbit o n), (Z.testbit ParseLitGen.PL_RightToLeft n); reflexivity. }
+  rewrite H. reflexivity.
+Qed.
+
 Section Total.
 Variable is_word_char : Z -> bool.
 Variable to_lower : Z -> Z.
@@ -80,5 +149,22 @@ Proof.
   destruct (prescan_step is_word_char to_lower simple_fold cat_in cat_name mco st ch p1) as [[st' q]|e q| | |]; cbn [step_res] in S; auto.
   destruct S as [S1 S2]. split; [exact S1 | cbn [length]; lia].
 Qed.
+
+(* scanGroupOpen on "(?<=" / "(?<!" : a lookaround node with the RightToLeft bit, and the parser's current options
+   (under which the group's alternation, concatenation and every node of the body are created) carry it too;
+   "(?=" / "(?!" clear it *)
+Theorem lookbehind_opens_right_to_left tb mco gt v c p : c = 61 \/ c = 33 ->
+  group_open is_word_char tb mco gt v (63 :: 60 :: c :: p) =
+    POk (Some (mk_node (if c =? 61 then T_PosLook else T_NegLook) (set_rtl (gv_o v))),
+         mkGV (set_rtl (gv_o v)) false (gv_autocap v), p)
+  /\ useRTL (set_rtl (gv_o v)) = true.
+Proof. intros [-> | ->]; (split; [reflexivity | apply useRTL_set]). Qed.
+
+Theorem lookahead_opens_left_to_right tb mco gt v c p : c = 61 \/ c = 33 ->
+  group_open is_word_char tb mco gt v (63 :: c :: p) =
+    POk (Some (mk_node (if c =? 61 then T_PosLook else T_NegLook) (clear_rtl (gv_o v))),
+         mkGV (clear_rtl (gv_o v)) false (gv_autocap v), p)
+  /\ useRTL (clear_rtl (gv_o v)) = false.
+Proof. intros [-> | ->]; (split; [reflexivity | apply useRTL_clear]). Qed.
 
 End Total.
